@@ -199,6 +199,11 @@ mut("comment_also_ends_at_carriage_return", ["C14"], "comment-ends-only-at-a-lin
     [("parser.go", "\t\t\t\tif A[i] == '\\n' {\n\t\t\t\t\tbreak\n\t\t\t\t}\n\t\t\t}\n\t\t\treturn string(A[start:i]), nil", "\t\t\t\tif A[i] == '\\n' || A[i] == '\\r' {\n\t\t\t\t\tbreak\n\t\t\t\t}\n\t\t\t}\n\t\t\treturn string(A[start:i]), nil")], "a lone CR inside a comment turns the rest of the line into tokens")
 mut("formatter_literal_only_after_separator", ["C14"], "bnd/c14/formatter-keeps-tokens",
     [("util.go", "\t\tcase c == '\"':\n\t\t\t// a string literal is copied verbatim", "\t\tcase c == '\"' && prev != normal:\n\t\t\t// a string literal is copied verbatim")], "a literal directly after another literal is re-laid-out")
+# ---- C01 (node construction)
+mut("operator_node_built_as_fast_operator", ["C01"], "parser.buildParentNode/post/operator-node",
+    [("parser.go", "\t\tnode: &node{\n\t\t\tflag:     operator,\n\t\t\tvalue:    car.val,", "\t\tnode: &node{\n\t\t\tflag:     fastOperator,\n\t\t\tvalue:    car.val,")], "operator nodes are born as fast operators whatever their operands")
+mut("end_if_marker_shares_condition_closure", ["C01"], "parser.buildParentNode/post/end-if-marker",
+    [("parser.go", "\t\t\t\toperator: func(_ *Ctx, _ []Value) (Value, error) {\n\t\t\t\t\treturn true, nil\n\t\t\t\t},", "\t\t\t\toperator: func(_ *Ctx, ps []Value) (Value, error) {\n\t\t\t\t\treturn len(ps) < 2, nil\n\t\t\t\t},")], "the end-if marker's jump depends on its arguments")
 # ---- probes of mechanisms that only the bounded tier covers
 mut("reduce_nesting_merges_any_bool_operator", ["C02"], "bnd/",
     [("compiler.go", "\t\tif isAndOpNode(cn) == rootOpType {\n\t\t\tchildren = append(children, child.children...)", "\t\tif isAndOpNode(cn) == rootOpType || len(child.children) == 2 {\n\t\t\tchildren = append(children, child.children...)")], "a two-operand or inside an and (or vice versa) is flattened into its parent")
